@@ -1088,3 +1088,371 @@ def fork_int(v: Any, lo: int, hi: int) -> int:
         if v == k:
             return k
     return hi
+
+
+# ---------------------------------------------------------------------- strategy specifications (the DOCUMENTED side)
+#
+# Hand-written from the docstrings of retry_policy.py / the tenacity semantics the module mirrors — this is the
+# reference, NOT derived from the code.  Retry index j = 0 is the FIRST retry (the delay after the first failure).
+
+
+def _pw(b: Any, j: int) -> Any:
+    t = z3.RealVal(1)
+    for _ in range(j):
+        t = t * b
+    return t
+
+
+class _RecordingRandom:
+    """Native replay helper: stands for the ``random`` module attribute of retry_policy; records uniform() ranges and
+    returns the draw value of the solver's model (``value``, when it lies in the range) — the RNG is environment."""
+
+    def __init__(self, value: Optional[float] = None) -> None:
+        self.ranges: List[Tuple[float, float]] = []
+        self.value = value
+        outer = self
+
+        class _R:
+            def __init__(self, seed: Any = None) -> None:
+                self.seed = seed
+
+            def uniform(self, a: float, b: float) -> float:
+                return outer.uniform(a, b)
+
+        self.Random = _R
+
+    def uniform(self, a: float, b: float) -> float:
+        self.ranges.append((a, b))
+        if self.value is not None and min(a, b) <= self.value <= max(a, b):
+            return self.value
+        return a
+
+
+def jitter_spec(spec: "Spec") -> Optional["Spec"]:
+    """The (single) additive-jitter leaf of a spec tree, if any."""
+    if isinstance(spec, ExpJitterSpec):
+        return spec
+    for c in getattr(spec, "children", []):
+        j = jitter_spec(c)
+        if j is not None:
+            return j
+    return None
+
+
+class Spec:
+    name = "?"
+    params: List[str] = []
+    jittered = False
+
+    def __init__(self, prefix: str = "") -> None:
+        self.prefix = prefix
+
+    def p(self, P: Dict[str, Any], n: str) -> Any:
+        return P[self.prefix + n]
+
+    def all_params(self) -> List[str]:
+        return [self.prefix + n for n in self.params]
+
+    def kwargs(self, P: Dict[str, Any]) -> Dict[str, Any]:
+        return {n: P[self.prefix + n] for n in self.params}
+
+    def build(self, tr: Translator, P: Dict[str, Any]) -> SymObj:
+        return tr.construct(self.name, **self.kwargs(P))
+
+    def real(self, V: Dict[str, Any]) -> Any:
+        import workflows.retry_policy as rp
+
+        return getattr(rp, self.name)(**{n: float(V[self.prefix + n]) for n in self.params})
+
+    def valid(self, P: Dict[str, Any]) -> List[Any]:
+        return [P[n] >= 0 for n in self.all_params()]
+
+    # documented delay at retry index j (z3 term); `draw` gives the term of this strategy's own uniform draw
+    def ref(self, j: int, P: Dict[str, Any], seed: Any, U: Any) -> Any:
+        raise NotImplementedError
+
+    def ref_native(self, j: int, V: Dict[str, Any], seed: Optional[int], draw: Optional[float] = None) -> float:
+        raise NotImplementedError
+
+    # documented bounds of the delay returned for attempts = k: (lower, upper) z3 terms
+    def bounds(self, k: int, P: Dict[str, Any]) -> Tuple[Any, Any]:
+        raise NotImplementedError
+
+
+class FixedSpec(Spec):
+    name = "wait_fixed"
+    params = ["wait"]
+
+    def ref(self, j, P, seed, U):
+        return to_real(self.p(P, "wait"))
+
+    def ref_native(self, j, V, seed, draw=None):
+        return float(V[self.prefix + "wait"])
+
+    def bounds(self, k, P):
+        return self.p(P, "wait"), self.p(P, "wait")
+
+
+class ExponentialSpec(Spec):
+    """'Wait with exponentially increasing delays, clamped between min and max'; first retry = multiplier."""
+
+    name = "wait_exponential"
+    params = ["multiplier", "exp_base", "max", "min"]
+
+    def valid(self, P):
+        return super().valid(P) + [self.p(P, "min") <= self.p(P, "max")]
+
+    def _clamped(self, j, P):
+        m, b, mx, mn = (self.p(P, n) for n in self.params)
+        return zmax(zmax(z3.RealVal(0), mn), zmin(m * _pw(b, j), mx))
+
+    def ref(self, j, P, seed, U):
+        return self._clamped(j, P)
+
+    def ref_native(self, j, V, seed, draw=None):
+        m, b, mx, mn = (float(V[self.prefix + n]) for n in self.params)
+        return max(max(0.0, mn), min(m * b**j, mx))
+
+    def bounds(self, k, P):
+        return self.p(P, "min"), self.p(P, "max")
+
+
+class IncrementingSpec(Spec):
+    """'The delay starts at start and increases by increment on each retry, capped by max and never below zero'."""
+
+    name = "wait_incrementing"
+    params = ["start", "increment", "max"]
+
+    def ref(self, j, P, seed, U):
+        s, inc, mx = (self.p(P, n) for n in self.params)
+        return zmax(z3.RealVal(0), zmin(s + inc * j, mx))
+
+    def ref_native(self, j, V, seed, draw=None):
+        s, inc, mx = (float(V[self.prefix + n]) for n in self.params)
+        return max(0.0, min(s + inc * j, mx))
+
+    def bounds(self, k, P):
+        return z3.RealVal(0), self.p(P, "max")
+
+
+class IncrementingNoMaxSpec(Spec):
+    """wait_incrementing with the default max (inf)."""
+
+    name = "wait_incrementing"
+    params = ["start", "increment"]
+
+    def ref(self, j, P, seed, U):
+        s, inc = (self.p(P, n) for n in self.params)
+        return zmax(z3.RealVal(0), s + inc * j)
+
+    def ref_native(self, j, V, seed, draw=None):
+        s, inc = (float(V[self.prefix + n]) for n in self.params)
+        return max(0.0, s + inc * j)
+
+    def bounds(self, k, P):
+        return z3.RealVal(0), None
+
+
+class RandomSpec(Spec):
+    name = "wait_random"
+    params = ["min", "max"]
+    jittered = True
+
+    def valid(self, P):
+        return super().valid(P) + [self.p(P, "min") <= self.p(P, "max")]
+
+    def ref(self, j, P, seed, U):
+        return U(seed, z3.IntVal(0), to_real(self.p(P, "min")), to_real(self.p(P, "max")))
+
+    def ref_native(self, j, V, seed, draw=None):
+        import random
+
+        return random.Random(seed).uniform(float(V[self.prefix + "min"]), float(V[self.prefix + "max"]))
+
+    def bounds(self, k, P):
+        return self.p(P, "min"), self.p(P, "max")
+
+
+class ExpJitterSpec(Spec):
+    """'The deterministic base delay grows exponentially (initial, initial*exp_base, ...) and a random value in
+    [0, jitter] is added on top', capped by max."""
+
+    name = "wait_exponential_jitter"
+    params = ["initial", "exp_base", "max", "jitter"]
+    jittered = True
+
+    def ref(self, j, P, seed, U):
+        i, b, mx, jit = (self.p(P, n) for n in self.params)
+        base = zmin(i * _pw(b, j), mx)
+        return zmin(base + U(seed, z3.IntVal(0), z3.RealVal(0), to_real(jit)), mx)
+
+    def ref_native(self, j, V, seed, draw=None):
+        import random
+
+        i, b, mx, jit = (float(V[self.prefix + n]) for n in self.params)
+        base = min(i * b**j, mx)
+        u = draw if (draw is not None and 0 <= draw <= jit) else random.Random(seed).uniform(0, jit)
+        return min(base + u, mx)
+
+    def bounds(self, k, P):
+        i, b, mx, jit = (self.p(P, n) for n in self.params)
+        return zmin(i * _pw(b, k), mx), mx
+
+
+class RandomExpSpec(Spec):
+    """'A random delay is sampled between min and the exponential upper bound for the current attempt'."""
+
+    name = "wait_random_exponential"
+    params = ["multiplier", "exp_base", "max", "min"]
+    jittered = True
+
+    def valid(self, P):
+        return super().valid(P) + [self.p(P, "min") <= self.p(P, "max")]
+
+    def upper(self, j, P):
+        m, b, mx, mn = (self.p(P, n) for n in self.params)
+        return zmax(zmax(z3.RealVal(0), mn), zmin(m * _pw(b, j), mx))
+
+    def upper_native(self, j, V):
+        m, b, mx, mn = (float(V[self.prefix + n]) for n in self.params)
+        return max(max(0.0, mn), min(m * b**j, mx))
+
+    def ref(self, j, P, seed, U):
+        return U(seed, z3.IntVal(0), to_real(self.p(P, "min")), self.upper(j, P))
+
+    def ref_native(self, j, V, seed, draw=None):
+        import random
+
+        return random.Random(seed).uniform(float(V[self.prefix + "min"]), self.upper_native(j, V))
+
+    def bounds(self, k, P):
+        return self.p(P, "min"), self.upper(k, P)
+
+
+class ChainSpec(Spec):
+    """'Use a different wait strategy for each attempt in order; after the strategies are exhausted the last one is
+    reused': retry index j uses strategy min(j, n-1) (first retry = first strategy)."""
+
+    name = "wait_chain"
+
+    def __init__(self, children: List[Spec]) -> None:
+        super().__init__("")
+        self.children = children
+        self.jittered = any(c.jittered for c in children)
+
+    def all_params(self):
+        return [n for c in self.children for n in c.all_params()]
+
+    def build(self, tr, P):
+        return tr.construct("wait_chain", *[c.build(tr, P) for c in self.children])
+
+    def real(self, V):
+        import workflows.retry_policy as rp
+
+        return rp.wait_chain(*[c.real(V) for c in self.children])
+
+    def valid(self, P):
+        return [a for c in self.children for a in c.valid(P)]
+
+    def ref(self, j, P, seed, U):
+        return self.children[min(j, len(self.children) - 1)].ref(j, P, seed, U)
+
+    def ref_native(self, j, V, seed, draw=None):
+        return self.children[min(j, len(self.children) - 1)].ref_native(j, V, seed, draw)
+
+    def bounds(self, k, P):
+        return z3.RealVal(0), None
+
+
+class CombineSpec(Spec):
+    """'Combine multiple wait strategies by summing their delays'."""
+
+    name = "wait_combine"
+
+    def __init__(self, children: List[Spec]) -> None:
+        super().__init__("")
+        self.children = children
+        self.jittered = any(c.jittered for c in children)
+
+    def all_params(self):
+        return [n for c in self.children for n in c.all_params()]
+
+    def build(self, tr, P):
+        return tr.construct("wait_combine", *[c.build(tr, P) for c in self.children])
+
+    def real(self, V):
+        import workflows.retry_policy as rp
+
+        return rp.wait_combine(*[c.real(V) for c in self.children])
+
+    def valid(self, P):
+        return [a for c in self.children for a in c.valid(P)]
+
+    def ref(self, j, P, seed, U):
+        t: Any = z3.RealVal(0)
+        for c in self.children:
+            t = t + c.ref(j, P, seed, U)
+        return t
+
+    def ref_native(self, j, V, seed, draw=None):
+        return sum(c.ref_native(j, V, seed, draw) for c in self.children)
+
+    def bounds(self, k, P):
+        return z3.RealVal(0), None
+
+
+def spec_label(s: Spec) -> str:
+    if isinstance(s, (ChainSpec, CombineSpec)):
+        return f"{s.name}(" + ",".join(spec_label(c) for c in s.children) + ")"
+    return s.name + ("[max=inf]" if isinstance(s, IncrementingNoMaxSpec) else "")
+
+
+def declare(spec: Spec) -> Dict[str, Any]:
+    return {n: z3.Real(n) for n in spec.all_params()}
+
+
+def witness_values(spec: Spec, w: Dict[str, Any]) -> Dict[str, Fraction]:
+    return {n: frac(w[n]) for n in spec.all_params()}
+
+
+# ---------------------------------------------------------------------- robust witnesses
+
+TOL = z3.RealVal("1/1000000")
+PARAM_MAX = z3.RealVal(1000000)
+
+
+def domain(P: Dict[str, Any]) -> List[Any]:
+    """Parameter domain of the numeric obligations: |p| <= 1e6 (double precision resolves 1e-6 relative there)."""
+    return [z3.And(v >= -PARAM_MAX, v <= PARAM_MAX) for v in P.values()]
+
+
+def _scale(t: Any) -> Any:
+    return TOL * zmax(z3.RealVal(1), _abs(t))
+
+
+def differs(a: Any, b: Any) -> Any:
+    """|a-b| clearly above rounding noise."""
+    return _abs(a - b) > _scale(b)
+
+
+def clearly_less(a: Any, b: Any) -> Any:
+    return a < b - _scale(b)
+
+
+def check_robust(ctx: Any, name: str, assumptions: List[Any], neg_exact: Any, neg_margin: Any, variables: Dict[str, Any],
+                 replay: Any, note: str = "") -> str:
+    """Decide ``assumptions => not neg_exact``.  A model of the exact negation may sit inside rounding noise and then does
+    not reproduce in IEEE arithmetic; so a model with a clear margin (``neg_margin`` implies ``neg_exact``) is looked for
+    first and reported if it exists; otherwise the exact query is the recorded one (unsat = discharged)."""
+    ns = {k: getattr(z3, k) for k in ("And", "Or", "Not", "Implies", "If")}
+    ns.update(variables)
+    excl = [z3.Not(eval(e, dict(ns))) for e in ctx.excludes]  # noqa: S307 - committed known_findings.json only
+    s = z3.Solver()
+    s.set("timeout", ctx.timeout_s * 1000)
+    s.add(*assumptions)
+    s.add(*excl)
+    s.add(neg_margin)
+    if str(s.check()) == "sat":
+        return ctx.check(name, assumptions=assumptions, negated_property=neg_margin, variables=variables, replay=replay,
+                         note=(note + " [witness with margin > 1e-6 relative]").strip())
+    return ctx.check(name, assumptions=assumptions, negated_property=neg_exact, variables=variables, replay=replay, note=note)
